@@ -71,7 +71,7 @@ func (e *Exec) extern(fr *frame, st *State, ci ssa.CallInstruction, name string,
 		return e.pureAccessor(fr, st, ci, fobj, args, rt)
 	}
 	// unknown dependency: fail closed
-	e.oblige(st, fnName(fr.fn)+"/unknown-external:"+name, []string{"C14", "C18"}, BoolLit(false),
+	e.oblige(st, fnName(fr.fn)+"/unknown-external:"+name, []string{"C14", "C15", "C17", "C18"}, BoolLit(false),
 		"call to a dependency without an assumed contract/effect entry at "+e.ld.pos(ci.Pos()))
 	st.events = append(st.events, Event{Kind: "extern", Callee: name, Mode: "unknown", SVs: args, Instr: ci})
 	e.havocAll(st)
